@@ -396,7 +396,7 @@ static Result run_c12(const Case &c) {
     Config gi = cfg_from(c, "i_"), gj = cfg_from(c);
     if ((ref::is_isa(gi.backend) || ref::is_isa(gj.backend)) && !isa_available()) { r.skipped = true; return r; }
     Base b;
-    make_base(b, c, 0);
+    make_base(b, c, (int)c.get("wenv", 0));       // producer may write the historical CRC; validity must not depend on it
     if (!b.ok) { r.fail(b.err); return r; }
     bool same = c.get("same_instance") != 0;
     std::unique_ptr<Instance> vi;
@@ -491,6 +491,7 @@ static Case gen_c12() {
     cfg_to(c, gi, "i_");
     c.set("edit", weighted({1, 5, 3, 3, 3, 1, 2, 2, 1}));
     c.set("earg", pick(0, 1ll << 31));
+    c.set("wenv", weighted({6, 1, 1, 3, 1}));
     return c;
 }
 
